@@ -114,9 +114,12 @@ impl Matrix {
     /// itself (sum of the numbers mod 8), so that a matrix always renders the same way.
     pub fn render(&self) -> String {
         let style = (self.nl as usize + self.nr as usize * 3 + self.lines.iter().map(|(l, r, c)| *l as usize + *r as usize + (*c as i32 + 40000) as usize).sum::<usize>()) % 8;
+        // the reader splits at Unicode white space: ideographic space, no-break space and NEL are separators too
         let sep = match style {
             1 | 5 => "\t",
             2 => "  ",
+            6 => "\u{3000}",
+            7 => "\u{a0}\u{85}",
             _ => " ",
         };
         let eol = if style == 3 || style == 5 { "\r\n" } else { "\n" };
@@ -131,7 +134,7 @@ impl Matrix {
             if style >= 4 && i % 3 == 1 {
                 s.push_str(eol);
             }
-            if style == 6 {
+            if style == 2 {
                 write!(s, " {}{}{}{}{} {}", l, sep, r, sep, c, eol).unwrap();
             } else {
                 write!(s, "{}{}{}{}{}{}", l, sep, r, sep, c, eol).unwrap();
